@@ -452,7 +452,10 @@ def correspond(ctx, aliases):
             x, err = c12.guarded(lambda: c12.BUILD[kind](spec))
             if err is not None:
                 continue
-            d0 = c12.jsonable_dict(c12.conv(kind)[0](x))
+            d0, err = c12.guarded(lambda: c12.jsonable_dict(c12.conv(kind)[0](x)))
+            if err is not None:
+                ctx.count("corr_writer_raises")     # the oracle reports it (mode direct)
+                continue
             for (rk, dd) in all_subdicts(kind, d0):
                 if rng.random() < (1.0 if rk in ("system", "script", "network", "space") else 0.4):
                     for variant in range(3):
